@@ -500,6 +500,10 @@ def _build_and_run(tier, seed, profiles, decls_override=None):
                         steps.append(["with_" + render.ident_noraw(fn), fdef["count"] if fdef else None])
                 want_b = {"start": "DEFAULT" if d["default"] else "zero", "steps": steps, "build": True}
             cmp("builder", lambda: structure.builder_desc(items, name), want_b)
+            N = render.base_width(d)
+            dflt = d["default"]
+            want_c = {"zero": 0, "default": None if not dflt else (["lit", dflt["value"]] if dflt["form"] == "lit" else ["const", "C_%s" % name.upper()])}
+            cmp("consts", lambda: structure.consts_desc(items, name, d["base"], N not in gen.NATIVE), want_c)
         if d["kind"] == "bitenum" and "enumarms" in m:
             ea = m["enumarms"]
             kvs = dict(x.split("=") for x in ea if "=" in x)
